@@ -136,7 +136,13 @@ def run(ctx):
             if not pcalls:
                 res.unknown("D-DELEG", f, proj + "(...)", "projection", "no direct projection call (the projection is passed around as a value)", loc(v.fi, v.fi.node))
             else:
-                res.check(not wrong, "D-DELEG", f, norm(pcalls[0][1]), "projection", f"{name} is computed on {wrong[0].func.id if wrong else '?'} instead of {proj}", loc(v.fi, v.fi.node))
+                right = [c for _, c in pcalls if c.func.id == proj]
+                if wrong and right:
+                    # both projections are reachable: they sit in helpers that a shared higher-order helper is handed as values
+                    # (`_projected_scores(partial(_s_line_graph, s), ...)` / `_projected_scores(_bipartite, ...)`)
+                    res.unknown("D-DELEG", f, norm(right[0]), "projection", "both projections are reachable through a shared helper that receives the projection as a value; which one this function selects was not decided", loc(v.fi, v.fi.node))
+                else:
+                    res.check(not wrong, "D-DELEG", f, norm(pcalls[0][1]), "projection", f"{name} is computed on {wrong[0].func.id if wrong else '?'} instead of {proj}", loc(v.fi, v.fi.node))
             # the networkx functional: called directly, or referenced and handed to a helper
             refs = [n for fi, _ in bodies for n in ast.walk(fi.node) if isinstance(n, ast.Attribute) and n.attr.endswith("_centrality")]
             own_refs = [n for n in ast.walk(v.fi.node) if isinstance(n, ast.Attribute) and n.attr.endswith("_centrality")]
@@ -195,7 +201,16 @@ def run(ctx):
                     returned = any(isinstance(r, ast.Return) and r.value is not None and table in {x.id for x in ast.walk(r.value) if isinstance(x, ast.Name)} for r in ast.walk(b))
                     res.add("K-VID", f, norm(u), "translated", "ok" if trans else ("unknown" if returned else "violation"), "" if trans else "result keys are not translated back through the id table returned by the same projection call", loc(fi, u))
             if node_version:
-                tests = [n for fi, _ in bodies for n in ast.walk(fi.node) if isinstance(n, ast.Compare) and len(n.ops) == 1 and isinstance(n.ops[0], (ast.In, ast.NotIn)) and isinstance(n.left, ast.Constant) and n.left.value == "E"]
+                def _is_E(fi_, e_):
+                    if isinstance(e_, ast.Constant):
+                        return e_.value == "E"
+                    if isinstance(e_, ast.Name):  # a module constant: `_EDGE_ID_MARKER = "E"`
+                        return any(isinstance(a_, ast.Assign) and any(isinstance(t_, ast.Name) and t_.id == e_.id for t_ in a_.targets) and isinstance(a_.value, ast.Constant) and a_.value.value == "E" for a_ in fi_.module.tree.body)
+                    return False
+
+                # (the filter may sit in a predicate that is handed around as a value: every function of the module counts)
+                mod_funcs = [g_ for g_ in ctx.prog.functions.values() if g_.module is v.fi.module]
+                tests = [n for fi in ([b_[0] for b_ in bodies] + mod_funcs) for n in ast.walk(fi.node) if isinstance(n, ast.Compare) and len(n.ops) == 1 and isinstance(n.ops[0], (ast.In, ast.NotIn)) and _is_E(fi, n.left)]
                 starts = [n for fi, _ in bodies for n in ast.walk(fi.node) if isinstance(n, ast.Call) and isinstance(n.func, ast.Attribute) and n.func.attr == "startswith" and n.args and isinstance(n.args[0], ast.Constant) and n.args[0].value in ("E", "N")]
                 res.add("K-VID", f, '"E" not in k', "edge-vertices-dropped", "ok" if tests or starts else ("violation" if closed else "unknown"), "" if tests or starts else "the hyperedge vertices of the bipartite projection are not filtered out of the node centralities", loc(v.fi, v.fi.node))
     # ---- D-AVG
